@@ -23,7 +23,7 @@ RULE = ('cases are 4-10 steps: emit (a PGPy-made artifact whose packets are re-p
 TIERS = {'quick': {'runs': 3000, 'budget_s': 80}, 'thorough': {'runs': 150000, 'budget_s': 1500}}
 PROBES = ('own_key_private', 'own_key_protected', 'own_signature', 'own_message', 'own_encrypted', 'relay_accepted', 'relay_rejected',
           'framing_old', 'framing_5octet', 'framing_partial', 'framing_partial_final5', 'framing_indeterminate', 'unknown_tag', 'unknown_version',
-          'uid_invalid_utf8', 'filename_non_ascii', 'secret_usage255', 'secret_gnu_dummy', 'nested_compressed', 'edit_protect_old_format',
+          'uid_invalid_utf8', 'filename_non_ascii', 'secret_usage255', 'secret_gnu_dummy', 'secret_gnu_card_stub', 'nested_compressed', 'edit_protect_old_format',
           'edit_add_uid', 'trust_odd_length', 'uattr_two_subpackets')
 RELAY_KINDS = ['uid', 'uid', 'literal', 'literal', 'sig', 'sig', 'pubkey', 'pubsub', 'seckey', 'secsub', 'pkesk', 'skesk', 'ops', 'compressed',
                'sed', 'seipd', 'mdc', 'marker', 'trust', 'uattr', 'unknown_tag', 'unknown_version']
@@ -160,8 +160,11 @@ def build_foreign(step, ctx, run_seed):
         tag = 5 if kind == 'seckey' else 7
         if step['usage_octet'] == 0:
             return tag, rkeys.build_sec_body(body, alg, secret, None)
-        if r.random() < 0.1:
+        if r.random() < 0.15:
             ctx.probe('secret_gnu_dummy')
+            if r.random() < 0.5:
+                ctx.probe('secret_gnu_card_stub')
+                return tag, rkeys.build_gnu_dummy_body(body, rnd(16))
             return tag, rkeys.build_gnu_dummy_body(body)
         if step['usage_octet'] == 255:
             ctx.probe('secret_usage255')
@@ -276,6 +279,15 @@ def relay(ctx, pgpy, tag, body, wire, trailing, step):
     if out2 != out1 or out3 != out2:
         ctx.viol('C08:not-a-fixed-point:%s' % kind, 'a second parse/serialise pass changes the %s packet again (%d -> %d -> %d octets)'
                  % (kind, len(out1), len(out2), len(out3)))
+    # a copy of the parsed packet is the same packet
+    ctx.checked()
+    try:
+        outc = bytes(copy.copy(p1))
+    except Exception as e:
+        ctx.viol('C08:copy-raised:%s:%s' % (kind, type(e).__name__), 'copy.copy of a parsed foreign %s packet cannot be serialised: %s' % (kind, e))
+        return True
+    if outc != out1:
+        ctx.viol('C08:copy-differs:%s' % kind, 'copy.copy of a parsed foreign %s packet serialises to other octets (%d vs %d)' % (kind, len(outc), len(out1)))
     return True
 
 
